@@ -65,9 +65,20 @@ def gen_case(rng, ver, tier, force=None):
         if all(o is None for o in opts):
             opts[0] = {"rails": {"input": False}}
     api = "state" if (ver == "v1" and rng.random() < 0.3) else "messages"
+    if ver == "v1" and api == "messages" and not any(kd == "fixed" for kd in kinds) and rng.random() < 0.12:
+        api = "prompt"  # completion-style calls generate(prompt=...), each turn a conversation of its own
     if turns >= 2 and m >= 1 and rng.random() < 0.1:
         spec["same_bot"] = True  # the LLM produces the very same text in every turn
-    return {"spec": spec, "turns": turns, "kinds": kinds, "V": V, "cid": "c%d" % rng.randint(0, 10**6), "fault": None, "opts": opts, "api": api, "tx": rng.choice([0, 0, 1, 2, 3])}
+    if rng.random() < 0.25:
+        spec["sig"] = rng.choice(rails.SIGNATURES)  # the rail / dialog actions also declare a parameter the runtime injects by name
+    same_user = bool(turns >= 2 and k >= 1 and rng.random() < 0.1)
+    if same_user:
+        # the user repeats the very same text in every turn; no rewrites (the text-identity clauses need distinct texts)
+        kinds = [kinds[0]] * turns
+        V = [[s_, t_, i_, ("ok" if (v_ == "rewrite" and s_ == "in") else v_)] for s_, t_, i_, v_ in V]
+        if kinds[0] == "fixed":
+            V = [[s_, t_, i_, ("ok" if s_ == "out" else v_)] for s_, t_, i_, v_ in V]
+    return {"same_user": same_user, "spec": spec, "turns": turns, "kinds": kinds, "V": V, "cid": "c%d" % rng.randint(0, 10**6), "fault": None, "opts": opts, "api": api, "tx": rng.choice([0, 0, 1, 2, 3])}
 
 
 def expected_action_calls(case):
@@ -94,8 +105,13 @@ TEXT_FAMILIES = ("", "$5 off ", 'say "hi" {x} $y ', "it's 100% <b>&amp;</b> ")
 def user_text(case, t):
     # the unique token stays in the text; a family prefix makes the message start with / contain characters that mean
     # something to Colang, to the prompt templates or to the event-creation code
-    base = TEXT_FAMILIES[case.get("tx", 0) % len(TEXT_FAMILIES)] + "SECRET-%s-%d " % (case["cid"], t)
+    base = TEXT_FAMILIES[case.get("tx", 0) % len(TEXT_FAMILIES)] + user_token(case, t) + " "
     return base + ("fixedq" if case["kinds"][t] == "fixed" else "something")
+
+
+def user_token(case, t):
+    """`same_user`: the user sends the very same text in every turn (the rails' verdicts still differ per turn)"""
+    return "SECRET-%s-%s" % (case["cid"], "S" if case.get("same_user") else t)
 
 
 def run_conversation(case, reuse=0):
@@ -152,7 +168,7 @@ def judge(case, records, app):
         stats["rail_calls_out"] += len(outs)
         stats["llm_calls"] += len(llms)
         bot_token = rails.bot_token(case["cid"], t, case["spec"])
-        orig_token = "SECRET-%s-%d" % (case["cid"], t)
+        orig_token = user_token(case, t)
         # ---------------- C03: a faulted turn
         if rec["raised"] is not None:
             P("C03", t, "generate-raised", "%s: %s" % (type(rec["raised"]).__name__, rec["raised"]))
